@@ -72,6 +72,11 @@ func verifLayoutCaps(k int, caps []int64) *verifWorld {
 		dist = [][]int{{10, 17, 12}, {17, 10, 20}, {12, 20, 10}}
 		cpus = []cpuset.CPUSet{cpuset.New(0, 1, 2, 3), cpuset.New(), cpuset.New()}
 		norm = []bool{true, false, true}
+	case 4: // four DRAM nodes on a line + a far PMEM node
+		types = []Type{TypeDRAM, TypeDRAM, TypeDRAM, TypeDRAM, TypePMEM}
+		dist = [][]int{{10, 11, 12, 13, 20}, {11, 10, 11, 12, 20}, {12, 11, 10, 11, 20}, {13, 12, 11, 10, 20}, {20, 20, 20, 20, 10}}
+		cpus = []cpuset.CPUSet{cpuset.New(0), cpuset.New(1), cpuset.New(2), cpuset.New(3), cpuset.New()}
+		norm = []bool{true, true, true, true, true}
 	default:
 		types = []Type{TypeDRAM, TypeDRAM, TypePMEM, TypePMEM}
 		dist = [][]int{{10, 21, 17, 28}, {21, 10, 28, 17}, {17, 28, 10, 28}, {28, 17, 28, 10}}
@@ -218,6 +223,7 @@ func (w *verifWorld) buildFrom(specs []verifSpec) {
 }
 
 type verifSnap struct {
+	listed map[string]bool // ids ForeachRequest visits
 	zones map[string]NodeMask
 	live  map[string]bool
 	usage []int64 // per mask 1..all
@@ -233,6 +239,13 @@ func (w *verifWorld) snap(ids []string) *verifSnap {
 	for m := NodeMask(1); m <= w.allMask(); m++ {
 		s.usage = append(s.usage, w.a.ZoneUsage(m))
 	}
+	// the request registry as ForeachRequest shows it (Release and Realloc look
+	// requests up there)
+	s.listed = map[string]bool{}
+	w.a.ForeachRequest(nil, func(r *Request) bool {
+		s.listed[r.ID()] = true
+		return true
+	})
 	return s
 }
 
@@ -241,6 +254,7 @@ func (s *verifSnap) same(o *verifSnap, ids []string) bool {
 	ok := true
 	for _, id := range ids {
 		ok = verifAnd(ok, verifAnd(s.live[id] == o.live[id], s.zones[id] == o.zones[id]))
+		ok = verifAnd(ok, s.listed[id] == o.listed[id])
 	}
 	for i := range s.usage {
 		ok = verifAnd(ok, s.usage[i] == o.usage[i])
